@@ -311,6 +311,15 @@ def _exc(e):
     return type(e).__name__
 
 
+def _tkw(case):
+    """keyword arguments of transform(): every documented flag is part of the alphabet"""
+    return {} if case.get("validate") is None else {"validate": bool(case["validate"])}
+
+
+def _ttag(case):
+    return "" if not case.get("validate") else "[validate=True]"
+
+
 _MAXR: dict = {}  # family -> largest observed error/tolerance ratio among judged quantities (printed with C11_DEBUG=1)
 
 
@@ -344,14 +353,15 @@ def exec_rv(ctx, case):
     onepc = case["onepc"]
     answers = case["answers"]
     rngcls = case.get("rngcls", "generic")
-    tol = rv_tol(onepc)
+    tolarg = case.get("tol")  # the documented keyword `tol` of the function, when given
+    tol = rv_tol(onepc) if tolarg is None else max(TOL, 256 * EPS / max(onepc, float(tolarg)))
     R = None
     err = None
     old = np.seterr(all="ignore")
     try:
         with N.RandSeam(answers, reseed=case.get("reseed", 0)) as seam:
             try:
-                R = rotation_matrix_from_vectors(v1.copy(), v2.copy())
+                R = rotation_matrix_from_vectors(v1.copy(), v2.copy(), **({} if tolarg is None else {"tol": float(tolarg)}))
             except N.SeamExhausted:
                 err = "rng-retries-exhausted"
             except RecursionError:
@@ -363,7 +373,7 @@ def exec_rv(ctx, case):
         np.seterr(**old)
     ctx.count(evaluations=1, states=1, transitions=1, traces=1)
     rngpart = f":rng={rngcls}" if calls else ""
-    pre = f"rotation_matrix_from_vectors:{cls}{rngpart}"
+    pre = f"rotation_matrix_from_vectors{'' if tolarg is None else '[tol=given]'}:{cls}{rngpart}"
     sym = []
     if err:
         sym.append((err, f"call failed ({err})"))
@@ -412,9 +422,11 @@ def _rng_class(answer, v2):
     return "generic"
 
 
-def rv_cases_for(ctx, v1, v2, cls, onepc):
+def rv_cases_for(ctx, v1, v2, cls, onepc, tol=None):
     """the probe case, and - when the call consumed the RNG - one case per answer of the menu"""
     base = {"family": "rv", "v1": N.lst(v1), "v2": N.lst(v2), "cls": cls, "onepc": onepc}
+    if tol is not None:
+        base["tol"] = tol
     probe = dict(base, answers=[list(a) for a in N.answer_sequence(N.RNG_MENU[0])], rngcls=_rng_class(N.RNG_MENU[0], v2))
     calls = exec_rv(ctx, probe)
     if calls:
@@ -455,6 +467,9 @@ def part_rv_anti(ctx, spec):
                     r = math.sqrt(1.0 + d * d)
                     opc = (d * d) / (r * (r + 1.0))
                     p = rv_cases_for(ctx, v1, v2, "antiparallel-neighbourhood", opc)
+                    if i % 6 == 0 and s == 1.0:
+                        for tolarg in (1e-4, 1e-6, 1e-10):
+                            rv_cases_for(ctx, v1, v2, "antiparallel-neighbourhood", opc, tol=tolarg)
                     if i == 0 and d == 1e-7 and u is u1 and s == 1.0:
                         ctx.sample(p)
 
@@ -604,7 +619,7 @@ def exec_mol(ctx, case):
     topo = _topo("mol", name)
     n = m.n_atoms
     sel = case.get("sel")
-    pre = f"{op}"
+    pre = f"{op}{_ttag(case)}"
     ctx.count(evaluations=1, states=1, transitions=1, traces=1)
     vec = np.array(case["vec"], dtype=float) if "vec" in case else None
     R = None
@@ -617,13 +632,13 @@ def exec_mol(ctx, case):
             m.translate(arg)
             moved, expected = list(range(n)), base + vec
         elif op == "Molecule.transform":
-            m.transform(R.copy())
+            m.transform(R.copy(), **_tkw(case))
             moved, expected = list(range(n)), base @ R
         elif op == "Substructure.translate":
             m.substructure(list(sel)).translate(vec.copy())
             moved, expected = sel, base[sorted(set(sel))] + vec
         elif op == "Substructure.transform":
-            m.substructure(list(sel)).transform(R.copy())
+            m.substructure(list(sel)).transform(R.copy(), **_tkw(case))
             moved, expected = sel, base[sorted(set(sel))] @ R
         elif op == "Substructure.coords=":
             new = base[list(sel)] @ R + vec
@@ -691,6 +706,10 @@ def part_mol(ctx, spec):
     for ax in axes:
         for ang in ANGLES:
             exec_mol(ctx, {"family": "mol", "mol": name, "op": "Molecule.transform", "rot": [N.lst(ax), ang]})
+            exec_mol(ctx, {"family": "mol", "mol": name, "op": "Molecule.transform", "rot": [N.lst(ax), ang], "validate": True})
+    for ax in axes[::5]:
+        for ang in ANGLES[3:8]:
+            exec_mol(ctx, {"family": "mol", "mol": name, "op": "Molecule.transform", "rot": [N.lst(ax), ang], "validate": False})
     sub_vecs = [vecs[0], vecs[7], vecs[26 + 13], vecs[52 + 25], vecs[78 + 3], vecs[78 + 52 + 20]]
     sub_rots = [(axes[0], PI / 2), (axes[9], 2.0), (axes[25], PI), (axes[26 + 4], -PI / 6), (axes[26 + 17], 7.0), (axes[26 + 22], 0.0)]
     for sel in selections(topo):
@@ -700,6 +719,8 @@ def part_mol(ctx, spec):
         for ax, ang in sub_rots:
             case = {"family": "mol", "mol": name, "op": "Substructure.transform", "sel": sel, "rot": [N.lst(ax), ang]}
             exec_mol(ctx, case)
+            exec_mol(ctx, dict(case, validate=True))
+            exec_mol(ctx, dict(case, validate=False))
         for (ax, ang), v in zip(sub_rots[:3], sub_vecs[:3]):
             case = {"family": "mol", "mol": name, "op": "Substructure.coords=", "sel": sel, "rot": [N.lst(ax), ang], "vec": N.lst(v)}
             exec_mol(ctx, case)
@@ -800,7 +821,7 @@ def exec_ens(ctx, case):
     e, base = _posed_ens(ctx, name)
     topo = _topo("ens", name)
     nc, na = base.shape[0], base.shape[1]
-    pre = f"{op}"
+    pre = f"{op}{_ttag(case)}"
     ctx.count(evaluations=1, states=1, transitions=1, traces=1)
     expected = None
     only_conf = None
@@ -839,7 +860,7 @@ def exec_ens(ctx, case):
         elif op == "Conformer.transform":
             only_conf = int(case["conf"])
             R = N.rot_axis_angle(*case["rot"])
-            e[only_conf].transform(R.copy())
+            e[only_conf].transform(R.copy(), **_tkw(case))
             expected = base.copy()
             expected[only_conf] = base[only_conf] @ R
         elif op == "Conformer.rotate_dihedral":
@@ -916,6 +937,7 @@ def part_ens(ctx, spec):
             exec_ens(ctx, {"family": "ens", "ens": name, "op": "Conformer.translate", "conf": k, "vec": N.lst(v)})
         for ax, ang in ((axes[1], 2.0), (axes[30], PI), (axes[40], -PI / 6)):
             exec_ens(ctx, {"family": "ens", "ens": name, "op": "Conformer.transform", "conf": k, "rot": [N.lst(ax), ang]})
+            exec_ens(ctx, {"family": "ens", "ens": name, "op": "Conformer.transform", "conf": k, "rot": [N.lst(ax), ang], "validate": True})
         for q in quads:
             for t in (0.0, PI / 2, -2.0, PI):
                 exec_ens(ctx, {"family": "ens", "ens": name, "op": "Conformer.rotate_dihedral", "conf": k, "quad": list(q), "target": t})
@@ -953,6 +975,7 @@ def part_ens_shapes(ctx, spec):
     for k in range(nc):
         exec_ens(ctx, {"family": "ens", "ens": name, "op": "Conformer.translate", "conf": k, "vec": N.lst(lat[(11 * k + 3) % nv])})
         exec_ens(ctx, {"family": "ens", "ens": name, "op": "Conformer.transform", "conf": k, "rot": [N.lst(lat[(5 * k + 4) % 26]), 2.0]})
+        exec_ens(ctx, {"family": "ens", "ens": name, "op": "Conformer.transform", "conf": k, "rot": [N.lst(lat[(5 * k + 4) % 26]), 2.0], "validate": True})
     allc = list(range(na))
     for maps in ([allc], [allc, allc[::-1]] if na > 1 else [allc]):
         for ref_conf, ref_pose in ((0, 3), (nc - 1, 1)):
@@ -1238,7 +1261,7 @@ def exec_hist(ctx, case):
     atoms0 = list(m.atoms)
     sel_atoms = [atoms0[i] for i in sel]
     kind = "read" if op == "coords-read" else "write"
-    pre = f"kept-Substructure[parent-edit={edit}]:{kind}"
+    pre = f"kept-Substructure[parent-edit={edit}]:{kind}{_ttag(case)}"
     what = f"Substructure({sel}) of {name}{' (read once)' if case.get('touch') else ''} kept across parent edit '{edit}', then {op}"
     v = np.array(case.get("vec", [0.0, 0.0, 0.0]), dtype=float)
     R = N.rot_axis_angle(*case["rot"]) if "rot" in case else np.eye(3)
@@ -1286,7 +1309,7 @@ def exec_hist(ctx, case):
             sub.translate(v.copy())
             expected = mid[srt] + v
         elif op == "transform":
-            sub.transform(R.copy())
+            sub.transform(R.copy(), **_tkw(case))
             expected = mid[srt] @ R
         elif op == "coords=":
             new = mid[cur_sel] @ R + v
@@ -1294,7 +1317,7 @@ def exec_hist(ctx, case):
             expected = new[np.argsort(np.array(cur_sel), kind="stable")]
         elif op == "translate+transform":
             sub.translate(v.copy())
-            sub.transform(R.copy())
+            sub.transform(R.copy(), **_tkw(case))
             expected = (mid[srt] + v) @ R
             ctx.count(transitions=1)
         elif op == "coords-read":
@@ -1356,6 +1379,8 @@ def hist_cases(ctx, name):
                     }
                     if vi is not None:
                         case["victim"] = vi
+                    if "transform" in op and k % 2:
+                        case["validate"] = True
                     out.append(case)
                     out.append(dict(case, touch=True))
     # a view of ALL atoms kept across add_atom: the new atom is not selected and must not move
@@ -1387,7 +1412,7 @@ def exec_histens(ctx, case):
     e, base = _posed_ens(ctx, name)
     topo = _topo("ens", name)
     nc, na = base.shape[0], base.shape[1]
-    pre = f"kept-Conformer[ensemble-edit={edit}]:{'substructure-' if op.startswith('Substructure') else ''}write"
+    pre = f"kept-Conformer[ensemble-edit={edit}]:{'substructure-' if op.startswith('Substructure') else ''}write{_ttag(case)}"
     what = f"conformer {k} of {name} (and Substructure {sel}) kept across '{edit}', then {op}"
     v = np.array(case["vec"], dtype=float)
     R = N.rot_axis_angle(*case["rot"])
@@ -1423,13 +1448,13 @@ def exec_histens(ctx, case):
             cf.translate(v.copy())
             moved, expected = list(range(na)), mid[k] + v
         elif op == "Conformer.transform":
-            cf.transform(R.copy())
+            cf.transform(R.copy(), **_tkw(case))
             moved, expected = list(range(na)), mid[k] @ R
         elif op == "Substructure-of-Conformer.translate":
             sub.translate(v.copy())
             moved, expected = sel, mid[k][sorted(set(sel))] + v
         elif op == "Substructure-of-Conformer.transform":
-            sub.transform(R.copy())
+            sub.transform(R.copy(), **_tkw(case))
             moved, expected = sel, mid[k][sorted(set(sel))] @ R
         else:
             raise KeyError(op)
@@ -1478,6 +1503,8 @@ def part_histens(ctx, spec):
                     "prot": [N.lst(lat[(3 * t + 9) % 26]), ANGLES[3 + (t + 3) % 8]],
                     "core": [0, 1, 2] if na >= 3 else list(range(na)),
                 }
+                if "transform" in op and t % 2:
+                    case["validate"] = True
                 exec_histens(ctx, case)
                 exec_histens(ctx, dict(case, touch=True))
                 if k == 1 and ei == 3 and oi == 2 and name == "pentane_confs":
@@ -2522,6 +2549,13 @@ def exec_ctor(ctx, case):
             elif op == "transform":
                 (o.rotate if is_ens else o.transform)(R.copy())
                 expected = before @ R
+            elif op == "transform[validate=True]":
+                (o[1] if is_ens else o).transform(R.copy(), validate=True)
+                expected = before.copy()
+                if is_ens:
+                    expected[1] = before[1] @ R
+                else:
+                    expected = before @ R
             elif op == "rotate_dihedral":
                 q = (0, 1, 2, 3)
                 tgt = o[1] if is_ens else o
@@ -2609,9 +2643,9 @@ def ctor_cases(ctx):
     for route in CTOR_ROUTES:
         cls = route.split("(")[0]
         if cls == "CartesianGeometry":
-            ops = ["translate", "transform", "coords=integer-array"]
+            ops = ["translate", "transform", "transform[validate=True]", "coords=integer-array"]
         elif cls == "Structure":
-            ops = ["translate", "transform", "rotate_dihedral", "substructure-translate", "coords=integer-array"]
+            ops = ["translate", "transform", "transform[validate=True]", "rotate_dihedral", "substructure-translate", "coords=integer-array"]
         elif cls == "Molecule":
             ops = ["translate", "transform", "rotate_dihedral", "substructure-translate", "coords=integer-array", "align"]
         else:
@@ -2631,8 +2665,149 @@ def part_ctor(ctx, spec):
 
 
 # =====================================================================================================
-EXEC = {"rv": exec_rv, "ra": exec_ra, "mol": exec_mol, "dih": exec_dih, "ens": exec_ens, "aln": exec_aln, "hist": exec_hist, "histens": exec_histens, "arg": exec_arg, "own": exec_own, "mag": exec_mag, "partner": exec_partner, "ctor": exec_ctor}
-PARTS = {"rv_pairs": part_rv_pairs, "rv_anti": part_rv_anti, "ra": part_ra, "mol": part_mol, "dih": part_dih, "ens": part_ens, "aln": part_aln, "hist": part_hist, "histens": part_histens, "arg": part_arg, "own": part_own, "ens_shapes": part_ens_shapes, "mag": part_mag, "partner": part_partner, "ctor": part_ctor}
+# post : start states in which ONE conformer already satisfies the postcondition and the others do not,
+#        and chains of operations (center -> center, translate one view -> center, ... -> align)
+# =====================================================================================================
+POST_PREPS = ("translate-through-the-conformer-view", "ensemble([molecules])", "ensemble([seed]).extend(rest)", "coordinates-assigned")
+POST_OPS = ("center_at_core", "center_at_core-twice", "center_at_atom", "center_at_atom-then-center_at_core", "align_to_ref_coords")
+
+
+def exec_post(ctx, case):
+    name = case["ens"]
+    j = int(case["j"])
+    core = [int(x) for x in case["core"]]
+    prep = case["prep"]
+    op = case["op"]
+    e0, base = _posed_ens(ctx, name)
+    topo = _topo("ens", name)
+    nc, na = base.shape[:2]
+    which = "first" if j == 0 else ("last" if j == nc - 1 else "middle")
+    pre = f"{op}[{which}-conformer-already-centred]"
+    what = f"{op} on {name} after conformer {j} alone was put with its core {core} (resp. atom {core[0]}) at the origin by {prep}"
+    ctx.count(evaluations=1, states=1, traces=1)
+    atom_mode = op.startswith("center_at_atom")
+    shift = base[j][core[0]] if atom_mode else np.mean(base[j][core], axis=0)
+    # ---- set-up: conformer j satisfies the postcondition exactly, the others are where they were ----------
+    try:
+        if prep == "translate-through-the-conformer-view":
+            e = e0
+            e[j].translate(-shift)
+        elif prep == "coordinates-assigned":
+            e = e0
+            c = base.copy()
+            c[j] = base[j] - shift
+            e._coords = c
+        else:
+            mols = []
+            for k in range(nc):
+                m = ml.Molecule(e0[k])
+                m._coords = (base[k] - shift if k == j else base[k]).copy()
+                mols.append(m)
+            if prep == "ensemble([molecules])":
+                e = ml.ConformerEnsemble(mols)
+            else:
+                # the already-centred conformer is the seed the ensemble is grown from (it ends up first)
+                e = ml.ConformerEnsemble([mols[j]])
+                e.extend(ml.ConformerEnsemble([mols[k] for k in range(nc) if k != j]) if nc > 1 else [])
+        ctx.count(transitions=1)
+    except Exception as ex:
+        ctx.violation(f"{pre}:set-up-raised-{_exc(ex)}", f"{what}: set-up raised {_exc(ex)}: {ex}", case)
+        return
+    mid = np.array(e.coords, dtype=float, copy=True)
+    if mid.shape != base.shape:
+        ctx.violation(f"{pre}:set-up-wrong-shape", f"{what}: the ensemble has coords {mid.shape}, expected {base.shape}", case)
+        return
+    ok = True
+    try:
+        if op in ("center_at_core", "center_at_core-twice"):
+            e.center_at_core(list(core))
+            if op.endswith("twice"):
+                e.center_at_core(list(core))
+            expected = mid - np.mean(mid[:, core, :], axis=1, keepdims=True)
+        elif op == "center_at_atom":
+            e.center_at_atom(e.atoms[core[0]])
+            expected = mid - mid[:, core[0] : core[0] + 1, :]
+        elif op == "center_at_atom-then-center_at_core":
+            e.center_at_atom(e.atoms[core[0]])
+            e.center_at_core(list(core))
+            expected = mid - np.mean(mid[:, core, :], axis=1, keepdims=True)
+        elif op == "align_to_ref_coords":
+            expected = None
+            refc = base[int(case.get("ref_conf", 0)) % nc] @ N.pose_matrix(3)[0] + N.pose_matrix(3)[1]
+            refmol = ml.Molecule(e0[0])
+            refmol._coords = refc.copy()
+            refsub = refmol.substructure(list(core))
+            vec = np.mean(refc[core], axis=0)
+            refsub.translate(-vec)
+            Q = np.array(refsub.coords, dtype=float, copy=True)
+            ret = [float(x) for x in e.align_to_ref_coords(_harness_kabsch([]), [list(core)], refsub, vec.copy())]
+            fin = np.asarray(e.coords, dtype=float)
+            # the same alignment from the general pose (no conformer pre-centred): a plain numpy start state
+            e0._coords = base.copy()
+            ret0 = [float(x) for x in e0.align_to_ref_coords(_harness_kabsch([]), [list(core)], refsub, vec.copy())]
+            fin0 = np.asarray(e0.coords, dtype=float)
+            order = list(range(nc)) if prep != "ensemble([seed]).extend(rest)" else [j] + [k for k in range(nc) if k != j]
+            for pos_, k in enumerate(order):
+                ok = judge_edit(ctx, pre, case, mid[pos_], fin[pos_], list(range(na)), None, topo.stereo_quads(), what=f"{what}, conformer {k}") and ok
+                if not ok:
+                    break
+                ach = N.rmsd(fin[pos_][core] - vec, Q)
+                if abs(ach - ret[pos_]) > TOL * max(1.0, N.extent(Q)):
+                    ctx.violation(f"{pre}:returned-rmsd-differs-from-achieved", f"{what}, conformer {k}: returned {ret[pos_]:.9g}, achieved {ach:.9g}", case)
+                    ok = False
+                    break
+                if abs(ret[pos_] - ret0[k]) > TOL * max(1.0, N.extent(Q)) or float(np.max(np.abs(fin[pos_] - fin0[k]))) > 1e-8 * N.mag(fin0[k]):
+                    ctx.violation(
+                        f"{pre}:result-depends-on-initial-pose",
+                        f"{what}, conformer {k}: RMSD {ret[pos_]:.9g} / final coordinates differ from the alignment of the same conformers from the general pose (RMSD {ret0[k]:.9g}, max deviation {float(np.max(np.abs(fin[pos_] - fin0[k]))):.3g})",
+                        case,
+                    )
+                    ok = False
+                    break
+        else:
+            raise KeyError(op)
+        ctx.count(transitions=2)
+    except Exception as ex:
+        ctx.violation(f"{pre}:raised-{_exc(ex)}", f"{what} raised {_exc(ex)}: {ex}", case)
+        return
+    if expected is not None:
+        fin = np.asarray(e.coords)
+        for k in range(nc):
+            ok = judge_edit(ctx, pre, case, mid[k], fin[k], list(range(na)), expected[k], topo.stereo_quads(), what=f"{what}, conformer position {k}") and ok
+            if not ok:
+                break
+    ctx.outcome(("post", op, which, prep, ok))
+    if ok:
+        ctx.nontrivial(("post", name, j, tuple(core), prep, op))
+
+
+def post_cases(ctx):
+    out = []
+    chain = [0, 1, 5, 8, 11]
+    cfg = [("pentane_confs", [chain, [0, 1, 5], [11]]), ("chiral5x3", [[0, 1, 2, 3], [2, 0]]), ("syn3x3", [[0, 1, 2], [1]]), ("syn4x4", [[0, 1, 2, 3], [3, 1]]), ("syn2x3", [[0, 1, 2]])]
+    for name, cores in cfg:
+        nc = _raw_ens(name).coords.shape[0]
+        for j in sorted({0, nc // 2, nc - 1}):
+            for ci, core in enumerate(cores):
+                for pi_, prep in enumerate(POST_PREPS):
+                    for oi, op in enumerate(POST_OPS):
+                        if op == "align_to_ref_coords" and len(core) < 3:
+                            continue
+                        out.append({"family": "post", "ens": name, "j": j, "core": core, "prep": prep, "op": op, "ref_conf": j + ci + pi_})
+    return out
+
+
+def part_post(ctx, spec):
+    lo, hi = spec
+    for i, c in enumerate(post_cases(ctx)[lo:hi]):
+        exec_post(ctx, c)
+        if lo == 0 and i == 3:
+            ctx.sample(c)
+
+
+# =====================================================================================================
+EXEC = {"rv": exec_rv, "ra": exec_ra, "mol": exec_mol, "dih": exec_dih, "ens": exec_ens, "aln": exec_aln, "hist": exec_hist, "histens": exec_histens, "arg": exec_arg, "own": exec_own, "mag": exec_mag, "partner": exec_partner, "ctor": exec_ctor, "post": exec_post}
+PARTS = {"rv_pairs": part_rv_pairs, "rv_anti": part_rv_anti, "ra": part_ra, "mol": part_mol, "dih": part_dih, "ens": part_ens, "aln": part_aln, "hist": part_hist, "histens": part_histens, "arg": part_arg, "own": part_own, "ens_shapes": part_ens_shapes, "mag": part_mag, "partner": part_partner, "ctor": part_ctor, "post": part_post}
 
 
 def _run_part(ctx, part):
@@ -2666,7 +2841,12 @@ def run(ctx):
         "view (and a Substructure of it) kept across 7 ensemble edits x 4 edits through the view; every ensemble-level operation (translate 1-D/2-D, "
         "rotate matrix/stack, center_at_atom for every atom, center_at_core, Conformer translate/transform, align_to_ref_coords) on ensembles whose "
         "(n_conformers, n_atoms) is (1,1),(1,3),(3,1),(3,3),(2,3),(3,2),(4,4),(5,5) and (17,17) pentane - the coincidences on which a "
-        "shape-dispatched argument could be misread - plus 1-atom and 3-atom molecules in the molecule families; every alignment case additionally started from the aligned pose turned "
+        "shape-dispatched argument could be misread - plus 1-atom and 3-atom molecules in the molecule families; every transform call additionally with the documented keyword validate in "
+        "{True, False} (Molecule, Substructure, Conformer, CartesianGeometry, Structure; kept views too) and rotation_matrix_from_vectors with "
+        "tol in {1e-4, 1e-6, 1e-10}; start states in which exactly one conformer (first / middle / last) already has its core (or atom) at the "
+        "origin - made so through the conformer view, by plain assignment, by building the ensemble from molecules, or by growing it from that seed "
+        "with extend() - followed by center_at_core (once, twice), center_at_atom, center_at_atom then center_at_core, and align_to_ref_coords "
+        "(compared with the alignment of the same conformers from the general pose); every alignment case additionally started from the aligned pose turned "
         f"by {list(NEAR_DELTAS)} rad about two axes through the core's centroid, with and without a 1e-4 shift (result equal to the aligned pose to "
         "1e-8, RMSD to 1e-9); objects constructed with coords= given as python ints, int64, int32, float32, float16, Fortran-ordered, strided and "
         "read-only float64 (CartesianGeometry, Structure, Molecule from elements and from a molecule, ConformerEnsemble from an ensemble / a molecule "
@@ -2744,6 +2924,8 @@ def run(ctx):
         parts.append(("partner", (lo, hi)))
     for lo, hi in _chunks(len(ctor_cases(ctx)), 2):
         parts.append(("ctor", (lo, hi)))
+    for lo, hi in _chunks(len(post_cases(ctx)), 4):
+        parts.append(("post", (lo, hi)))
     for name in SHAPE_ENS:
         parts.append(("ens_shapes", name))
         parts.append(("histens", name))
